@@ -338,7 +338,10 @@ def check_C05(ctx):
     ctx.notes["schemas_in_family"] = st["schemas"]
     ctx.notes["records_with_ok_value"] = st["ok_values"]
     mism = run_tv(ctx, "TV_TypedCursor", recs, timeout=3000)
-    classify_mismatches(ctx, mism, recs, {"C04-kemn-key": lambda rec, d: has_kemn_key(rec.get("raw", []))},
+    def tagged_unit_with_text(rec, d):
+        return any(e.get("k") == "S" and e.get("t") == "!U" and not (e.get("q") == "p" and e.get("v", "") in ("", "~", "null", "Null", "NULL")) for e in rec.get("raw", []))
+    classify_mismatches(ctx, mism, recs, {"C04-kemn-key": lambda rec, d: has_kemn_key(rec.get("raw", [])),
+                                          "C05-tagged-unit-variant-ignores-text": tagged_unit_with_text},
                         "typed result differs from TypedCursor!FaithfulDoc (reference interpreter on the parser's event stream)")
     return finish(ctx, "model_checking",
                   "cases: every alias-free document up to MaxEv events over field/variant names and scalars 1 x ~ true, enumerated by "
